@@ -845,7 +845,12 @@ found:
 			if escape {
 				// Continuation line - remove \ then continue
 				if c == '\n' {
-					buf.Truncate(buf.Len() - 1)
+					if rawString {
+						// a raw string keeps both the backslash and the newline
+						_, _ = buf.WriteRune(c)
+					} else {
+						buf.Truncate(buf.Len() - 1)
+					}
 					goto readMore
 				}
 				_, _ = buf.WriteRune(c)
@@ -880,6 +885,14 @@ found:
 		x.refill()
 	}
 foundEndOfString:
+	if byteString {
+		for _, c := range buf.String() {
+			if c >= 0x80 {
+				x.SyntaxErrorf("bytes can only contain ASCII literal characters.")
+				return eofError, nil
+			}
+		}
+	}
 	if !rawString {
 		var err error
 		buf, err = DecodeEscape(buf, byteString)
